@@ -330,6 +330,7 @@ int parsec_vpmap_init_from_file(const char *filename)
     if( 0 == parsec_nbvp ) {
         /* If no description is available for the process, create one single-thread VP */
         parsec_inform("No VP parameter for the process %i: create one VP (single thread, unbound)", rank);
+        parsec_nbvp = -1;  /* no map has been built yet */
         return parsec_vpmap_init_from_flat(-1);
     }
     /* We have some VP descriptions */
